@@ -11,7 +11,7 @@ import (
 )
 
 func init() {
-	register(&Rule{Name: "AUG.ONCE", Props: []string{"C07"}, Floor: 4,
+	register(&Rule{Name: "AUG.ONCE", Props: []string{"C07", "C01", "C04"}, Floor: 4,
 		Doc: "applied augments are never kept for re-application; skipped ones are never lost",
 		Run: ruleAugOnce})
 	register(&Rule{Name: "AUG.FIXPOINT", Props: []string{"C07", "C05"}, Floor: 2,
